@@ -7,6 +7,7 @@ import (
 	"fmt"
 	"os"
 	"strings"
+	"time"
 
 	"github.com/scionproto/scion/pkg/slayers/path"
 	pscion "github.com/scionproto/scion/pkg/slayers/path/scion"
@@ -252,7 +253,7 @@ func (g *runner) run(p *pkt, tag string, badmac bool) string {
 				map[string]any{"answer": ans})
 		}
 		// authenticated reply iff verified request; the client must be able to verify it
-		verified := (p.mock == 1 || p.mode == "srvkeys") && p.hasAu && len(p.auth) == 28 && p.l4 == "udp" && p.mac != "err" && p.mac != "-" &&
+		verified := (p.mock == 1 || p.mode == "srvkeys" || p.mode == "srvgrpc") && p.hasAu && len(p.auth) == 28 && p.l4 == "udp" && p.mac != "err" && p.mac != "-" &&
 			lib.Hex(p.auth[12:]) == p.mac && beU32(p.auth) == spiClient && p.auth[4] == 0
 		switch {
 		case verified && o.replyMAC != "ok":
@@ -303,6 +304,11 @@ func gen(c *lib.Ctx) {
 		killChildren()
 		return
 	}
+	if os.Getenv("C13_PART") == "epochs" {
+		genEpochHistories(g, c.Rand.Fork("epochs"), c.Scale(2, 8))
+		killChildren()
+		return
+	}
 	genAuthFuncs(c)
 	c.Comment("reset stateless ops")
 	genMalformed(g, c.Rand.Fork("malformed"), c.Scale(80, 400))
@@ -313,6 +319,10 @@ func gen(c *lib.Ctx) {
 	genSCMP(g, c.Rand.Fork("scmp"), c.Scale(500, 5000))
 	genDispatcher(g, c.Rand.Fork("disp"), c.Scale(300, 3000))
 	genKeyHistories(g, c.Rand.Fork("keys"), c.Scale(60, 600))
+	if os.Getenv("C13_EPOCHS") == "1" {
+		// waits for real DRKey epoch changes (a few seconds each): only where property C13 asks for it
+		genEpochHistories(g, c.Rand.Fork("epochs"), c.Scale(2, 8))
+	}
 	genIdent(g, c.Rand.Fork("ident"), c.Scale(60, 600))
 	killChildren()
 }
@@ -805,4 +815,97 @@ func genKeyHistories(g *runner, r *lib.Rand, n int) {
 		g.inHist, g.hist = false, nil
 	}
 	c.Comment("reset")
+}
+
+// genEpochHistories: the listener on the production connector (scion.NewDaemonConnector) with a
+// stand-in gRPC daemon whose level-2 keys rotate every epochLen of wall clock time (mode
+// srvgrpc). One history = a few client ASes, each with its own source port towards one listener
+// socket: in one epoch an honest request from each (served, key cached by that goroutine's
+// Fetcher); then — after the epoch has changed — from each a request whose MAC is computed under
+// the *expired* key (must not be served), an honest one under the new key (must be served, the
+// reply must verify under the new key), and one under the key of the epoch after (not served).
+func genEpochHistories(g *runner, r *lib.Rand, n int) {
+	c := g.c
+	failHist := func(sig, what string, detail map[string]any) {
+		if g.perSig == nil {
+			g.perSig = map[string]int{}
+		}
+		g.perSig[sig]++
+		c.Count("fail:" + sig)
+		if g.perSig[sig] <= 8 {
+			c.Fail(sig, what, g.hist, detail)
+		}
+	}
+	for i := 0; i < n; i++ {
+		c.Comment(fmt.Sprintf("history epochs %d", i))
+		g.inHist, g.hist = true, nil
+		sock := []string{"svc", "eh"}[r.Intn(2)]
+		hop := r.Intn(2)
+		srvIA := 0x0002ff0000000000 | r.U64()&0xffff
+		dt, da := randHost(r, 2)
+		type cli struct {
+			ia uint64
+			t  int
+			a  []byte
+			sp int
+			pk int
+		}
+		var clis []cli
+		for j := 0; j < 3+r.Intn(3); j++ {
+			ct, ca := randHost(r, 1)
+			clis = append(clis, cli{ia: 0x0001ff0000000000 | r.U64()&0xffffff, t: ct, a: ca, sp: 1024 + r.Intn(60000), pk: []int{0, 1, 1, 2}[r.Intn(4)]})
+		}
+		send := func(cl cli, wait bool, k int64, tag string) {
+			p := basePkt(r)
+			p.mode, p.mock, p.sock, p.hop = "srvgrpc", 0, sock, hop
+			p.sia, p.dia = cl.ia, srvIA
+			p.st, p.sa = cl.t, cl.a
+			p.dt, p.da = dt, da
+			p.sp = cl.sp
+			pickPath(r, p, cl.pk)
+			p.kep = epochOf(time.Now())
+			p.e2e, p.hasAu = 1, true
+			p.auth = make([]byte, 28)
+			p.auth[0], p.auth[1], p.auth[2], p.auth[3], p.auth[4] = byte(spiClient>>24), byte(spiClient>>16&0xff), byte(spiClient>>8&0xff), byte(spiClient&0xff), 0
+			setEpochMarker(p, wait, k)
+			if key, err := hostHostKeyEpoch(p.dia, p.sia, p.da, p.sa, p.kep+k); err == nil {
+				if m, err := p.macUnder(key); err == nil {
+					copy(p.auth[12:], m)
+				}
+			}
+			finish(p)
+			g.run(p, "epochs:"+tag, k != 0)
+			if last.kind == "sandbox" || last.kind == "" {
+				return
+			}
+			switch {
+			case k == 0 && last.kind != "reply":
+				failHist("C13:honest-request-rejected", "a request authenticated under the host-to-host key of the current DRKey epoch was not served",
+					map[string]any{"outcome": last.kind, "step": tag})
+			case k == 0 && last.replyMAC != "ok":
+				failHist("C13:reply-wrong-epoch-key", "the reply's authenticator does not verify under the key of the current DRKey epoch",
+					map[string]any{"reply_mac": last.replyMAC, "step": tag})
+			case k < 0 && last.kind == "reply":
+				failHist("C13:expired-key-served", "a request authenticated under the key of an expired DRKey epoch was served",
+					map[string]any{"step": tag})
+			case k > 0 && last.kind == "reply":
+				failHist("C13:future-key-served", "a request authenticated under the key of a later DRKey epoch was served",
+					map[string]any{"step": tag})
+			}
+		}
+		for _, cl := range clis {
+			send(cl, false, 0, "first-epoch:honest")
+		}
+		for j, cl := range clis {
+			send(cl, j == 0, -1, "after-change:expired-key")
+			send(cl, false, 0, "after-change:honest")
+			if r.Chance(50) {
+				send(cl, false, 1, "after-change:next-epoch-key")
+			}
+			if r.Chance(30) {
+				send(cl, false, -1, "after-change:expired-key-again")
+			}
+		}
+		g.inHist, g.hist = false, nil
+	}
 }
